@@ -259,6 +259,44 @@ def mk_pipeline_single(name, params=None, copies=1):
     return body
 
 
+def mk_pipeline_mutant_model(name, resnum, params=None):
+    """two MODELs of a structure with a hetero group, the second with one residue mutated to alanine (a point mutant is not
+    merged by topping up, so the conformations hold different numbers of atoms in front of the hetero group): for every group
+    present in both conformations the average lists each partner once, with the mean of the two conformations' values"""
+    def body(ctx):
+        from . import micro as M
+        from .c16 import mutate_to_ala
+        txt = M.text(name)
+        order = ctx.choice('mutant_is', ['MODEL 2', 'MODEL 1'])
+        txt = M.models(txt, mutate_to_ala(txt, resnum)) if order == 'MODEL 2' else M.models(mutate_to_ala(txt, resnum), txt)
+        k = ctx.int('shift_thousandths', 0, 2509)
+        t = k / 1000.0 if ctx.native else k / 1000
+
+        def tr(a):
+            a.x = a.x + t
+        mol = M.run(txt, transform=tr, params=params)
+        confs = [mol.conformations[n] for n in mol.conformation_names]
+        ctx.claim('two-conformations', len(confs) == 2)
+        avr = mol.conformations['AVR']
+        per = [{_gkey(g): g for g in c.groups if g.use_in_calculations()} for c in confs]
+        dk = lambda d: (d.label, d.group.atom.name, d.group.atom.res_num, d.group.atom.chain_id)
+        seen_hetero_partner = False
+        for a in avr.groups:
+            key = _gkey(a)
+            if not all(key in p_ for p_ in per):
+                continue
+            ctx.claim('pka-is-the-mean', eq(a.pka_value, (per[0][key].pka_value + per[1][key].pka_value) / 2), detail=a.label)
+            for kind in KINDS:
+                keys = [dk(d) for d in a.determinants[kind]]
+                ctx.claim('each-partner-listed-once:' + kind, len(keys) == len(set(keys)), detail='%s: %r' % (a.label, keys))
+                for d in a.determinants[kind]:
+                    seen_hetero_partner = seen_hetero_partner or d.group.atom.type == 'hetatm'
+                    tot = sum((x.value for p_ in per for x in p_[key].determinants[kind] if dk(x) == dk(d)), 0.0)
+                    ctx.claim('determinant-is-the-mean-over-the-conformations:' + kind, eq(d.value, tot / 2), detail='%s <- %s' % (a.label, d.label))
+        ctx.claim('a-hetero-group-is-among-the-partners', seen_hetero_partner)
+    return body
+
+
 def mk_pipeline_topup(name, twin, truncated):
     """whole pipeline on a two-MODEL file whose second model lacks a side chain, in a structure that also contains two
     residues sharing a number (insertion-coded twins): every conformation ends up with every atom, and the residue's
@@ -339,6 +377,13 @@ def obligations(tier):
                               bounds='%s as %d identical conformation(s)%s under a symbolic grid shift t in [0,2.509]' % (name, copies, ' with Nmin/Nmax lowered to 6/30' if params else ''),
                               claim_doc='the average reports every group of the conformation once with its pKa, desolvation and determinants, partner by partner',
                               max_paths=5000, wall_s=170 if tier == 'quick' else 1200, split_input=('shift_thousandths', 8) if name.startswith('complex') else None))
+    for name, res in ([('complex_ZN', 43)] if tier == 'quick' else [('complex_ZN', 43), ('complex_ZN', 46), ('complex_MTX', 31)]):
+        obs.append(Obligation('O5-pipeline-average-with-a-mutant-model[%s,%d->ALA,buried]' % (name, res), mk_pipeline_mutant_model(name, res, MM.BURIED),
+                              code=[M + 'average_of_conformations', 'propka/group.py:Group.__iadd__', 'propka/group.py:Group.add_determinant', 'propka/group.py:Group.__eq__',
+                                    'propka/conformation_container.py:ConformationContainer.sort_atoms', 'propka/run.py:single (whole pipeline)'],
+                              bounds='two MODELs of %s (Nmin/Nmax 6/30), residue %d mutated to ALA in the first or in the second; symbolic grid shift t in [0,2.509]' % (name, res),
+                              claim_doc='groups present in both conformations: pKa and every determinant are the means over the two conformations, each partner (told apart by atom and residue) listed once; a hetero partner occurs',
+                              max_paths=5000, wall_s=170 if tier == 'quick' else 1200, split_input=('shift_thousandths', 8)))
     if tier == 'thorough':
         obs.append(Obligation('O2-top-up[3 conformations]', mk_topup(3), code=obs[-3].code, bounds='3 conformations x 5 identities',
                               claim_doc=obs[-3].claim_doc, max_paths=2000000, shards=16, wall_s=1500))
